@@ -7,6 +7,8 @@ import (
 	"os/exec"
 	"path/filepath"
 	"strings"
+	"regexp"
+	"sort"
 	"time"
 
 	"github.com/uhn/ggql/pkg/ggql"
@@ -486,6 +488,72 @@ func runC15(c *core.Ctx) {
 			c.Outcome("B4-agree")
 		}
 	}
+	// ---- B5: constants of the custom scalar Time where the loader keeps coerced values (directive argument defaults, directive
+	// uses on a type and an enum value, inside a list and an input object): instants written with offsets, fractions, as UTC -
+	// the instants the printed schema spells are the instants that were loaded, and a reload prints the same text
+	{
+		stamps := []string{"2020-06-01T12:00:00+05:30", "2021-03-04T05:06:07.25-08:00", "1999-12-31T23:00:00-01:00", "2020-02-29T00:00:00Z", "2038-01-19T03:14:08.000000001+00:00", "1969-07-20T20:17:40+14:00"}
+		for ni := 0; ni < len(stamps); ni++ {
+			if !c.Owns(fmt.Sprintf("B5|%d", ni)) {
+				continue
+			}
+			c.Nontrivial()
+			c.Eval()
+			c.R.Distinct++
+			a, b, d3 := stamps[ni], stamps[(ni+1)%len(stamps)], stamps[(ni+2)%len(stamps)]
+			text := "input Span { from: Time to: Time }\ndirective @since(at: Time = \"" + a + "\", all: [Time], span: Span) on OBJECT | ENUM_VALUE\n" +
+				"type Doc @since(at: \"" + b + "\", all: [\"" + a + "\", \"" + d3 + "\"]) { i: Int }\nenum Phase { DRAFT @since(span: {from: \"" + d3 + "\", to: \"" + b + "\"}) FINAL }\ntype Query { doc: Doc phase: Phase }\n"
+			instants := func(sdl string) (out []string) {
+				for _, m := range c15TimeRe.FindAllString(sdl, -1) {
+					if t, err := time.Parse(time.RFC3339Nano, strings.Trim(m, "\"")); err == nil {
+						out = append(out, t.UTC().Format(time.RFC3339Nano))
+					} else {
+						out = append(out, "unreadable:"+m)
+					}
+				}
+				sort.Strings(out)
+				return
+			}
+			var p1, p2 string
+			var err1, err2 error
+			pi := core.Safe(func() {
+				r1 := ggql.NewRoot(c16Dummy{})
+				if err1 = r1.ParseString(text); err1 != nil {
+					return
+				}
+				p1 = r1.SDL(false, true)
+				r2 := ggql.NewRoot(c16Dummy{})
+				if err2 = r2.ParseString(p1); err2 != nil {
+					return
+				}
+				p2 = r2.SDL(false, true)
+			})
+			detail := map[string]interface{}{"sdl": text, "printed": p1, "printed_again": p2, "instants_loaded": instants(text), "instants_printed": instants(p1)}
+			attrs := map[string]string{"part": "B5", "site": "time-constants"}
+			switch {
+			case pi != nil:
+				detail["panic"] = pi.Value
+				c.Violation("panic", map[string]string{"site": pi.Site, "class": pi.Class, "part": "B5"}, detail)
+			case err1 != nil:
+				panic(core.EngineError{Msg: "C15 B5 schema refused: " + err1.Error() + "\n" + text})
+			case err2 != nil:
+				detail["diff"] = "the printed schema is refused: " + err2.Error()
+				attrs["stage"] = "reload"
+				c.Violation("load-differs", attrs, detail)
+			case strings.Join(instants(text), " ") != strings.Join(instants(p1), " "):
+				detail["diff"] = "the printed schema spells other instants than the loaded one"
+				attrs["stage"] = "first-print"
+				c.Outcome("time-constants-differ")
+				c.Violation("load-differs", attrs, detail)
+			case p1 != p2:
+				detail["diff"] = firstLineDiff(p1, p2)
+				attrs["stage"] = "second-print"
+				c.Violation("load-differs", attrs, detail)
+			default:
+				c.Outcome("B5-agree")
+			}
+		}
+	}
 	// ---- D: schemas that arrive in several loads and never declare a schema block: what 'extend schema' said about the root
 	// operation types, beside unrelated types that happen to carry the conventional names and arrive in another load. Every
 	// sequence of <= 4 different units; after every accepted load the printed root is reloaded and compared.
@@ -576,7 +644,7 @@ func runC15(c *core.Ctx) {
 	if c.Shard == 0 {
 		c15Ggqlgen(c, bases)
 	}
-	c.R.Bound = fmt.Sprintf("A: %d schemas; B: %d sites x %d strings (<= %d units over %d); B2: 7 constant sites x (24 numbers + explicit null); B3: the same sites typed Float x 8 numbers a float32 holds exactly; B4: 4 schemas with defaults inside defaults; whole-root and per-type (reversed) printed forms; C: ggqlgen on the bases (thorough); D: every sequence of <= 4 (thorough: all 6) of 6 later loads around an undeclared schema", len(subjects), len(c15Sites()), len(strs), maxLen, len(c15Units))
+	c.R.Bound = fmt.Sprintf("A: %d schemas; B: %d sites x %d strings (<= %d units over %d); B2: 7 constant sites x (24 numbers + explicit null); B3: the same sites typed Float x 8 numbers a float32 holds exactly; B4: 4 schemas with defaults inside defaults; B5: Time constants with offsets at 5 kept-value sites; whole-root and per-type (reversed) printed forms; C: ggqlgen on the bases (thorough); D: every sequence of <= 4 (thorough: all 6) of 6 later loads around an undeclared schema", len(subjects), len(c15Sites()), len(strs), maxLen, len(c15Units))
 	if !completed {
 		c.Cap("deadline reached")
 	}
@@ -801,3 +869,5 @@ func c15ImplicitModel(b, back *sgen.Schema) string {
 	}
 	return "none"
 }
+
+var c15TimeRe = regexp.MustCompile(`"\d{4}-\d\d-\d\dT[^"]*"`)
